@@ -9,6 +9,37 @@ TB = ("Coq 8.16.1 kernel; hand-written Gallina model tied to /repo by the corres
       "OCaml runner/main.ml; Python harness. See DESIGN.md section 7.")
 
 CLAIMED = {
+ "C09": dict(
+   text="16 theorems about a Gallina model of tensor.Functor.__call__ (object map with winding handling, box / dagger / "
+        "Cup / Cap branches, and the single-pass loop: one moveaxis per Swap, tensordot + moveaxis per box) on top of the "
+        "C08 numpy/Tensor model: functor_call_compositional - for every well-typed diagram and every interpretation the "
+        "single-pass result equals the layer-by-layer composite Id(F left) (x) F(box) (x) Id(F right) (boxes, daggered boxes, "
+        "swaps, cups, caps, scalars, object images of any length); well-formed tensors are an instance of the abstract "
+        "monoidal_model, hence evaluation is invariant under interchange and normal_form (from C05/C06); eval = identity "
+        "functor; sums, bubbles, daggers; F(x.l) = F(x).l.  Tie to /repo: exact Gaussian-integer correspondence, "
+        "independent einsum / layer-composite / invariance oracles.",
+   design="6/C09", engine="coq-tfun",
+   technique="Coq proof (loop invariant over a numpy model) + exact correspondence + einsum oracle"),
+ "C11": dict(
+   text="17 theorems over an abstract commutative *-ring with phase units (instantiated by the exact ring Cyc32 = "
+        "Q[x]/(x^16+1)): every exported gate's array equals the tket/textbook matrix (H S T X Y Z, Rx Ry Rz CU1 CRz CRx "
+        "for every phase, CZ, SWAP, Controlled(g) incl. daggered targets, Ket/Bra, scalars); rotations, gates and "
+        "well-typed circuits of gates are unitary; a circuit evaluates to the ordered product of its whiskered gates; "
+        "then = product, tensor = Kronecker; dagger evaluates to the conjugate transpose for every circuit; rewire "
+        "refusals and contiguous placements in general.  Partial: rewire on arbitrary (a, b) only for n <= 4 by exhaustive "
+        "computation.  Tie to /repo: reference table vs pytket's Op.get_unitary(), exact Cyc32 results vs Circuit.eval() "
+        "at 1e-9 on grid phases, unitarity / dagger / statevector / rewire oracles.",
+   design="6/C11", engine="coq-quantum",
+   technique="Coq proof (abstract *-ring, exact cyclotomic instance) + correspondence vs eval and pytket"),
+ "C14": dict(
+   text="45 theorems about a Gallina model of subs / lambdify / free_symbols on parametrised boxes and diagrams of the "
+        "tensor, circuit and zx classes (phases as canonical multivariate polynomials over Q): substitution preserves dom, "
+        "cod, kinds and flags; free symbols are exactly those of the boxes; substituting all symbols closes the diagram; "
+        "subs commutes with any evaluation that depends on parameters through their values; lambdify agrees with subs "
+        "semantically; plus _refuted witnesses for the five remaining known findings F11a,e,f,g,k.  Tie to /repo: exact "
+        "syntactic comparison of subs / lambdify results and free symbols, sympy-based evaluation oracle.",
+   design="6/C14", engine="coq-param",
+   technique="Coq proof (polynomial normal forms) + exact syntactic correspondence + sympy evaluation oracle"),
  "C17": dict(
    text="13 theorems about a Gallina model of zx.Diagram.to_pyzx / from_pyzx (graph = vertices, typed edges, ordered "
         "inputs/outputs): the exported graph has one vertex per boundary wire and spider, one edge per wire, Hadamard "
@@ -178,6 +209,9 @@ man = {
    ("coq-snake", "coq/Snake", "Gallina model of rewriting.snake_removal on top of the core model + Coq theorems + extracted runner"),
    ("coq-pyzx", "coq/PyZX", "Gallina model of the pyzx export/import of ZX diagrams + Coq theorems + extracted runner"),
    ("coq-grammar", "coq/Grammar", "Gallina models of the pregroup parser, CFG generation, CCG trees and biclosed->rigid translation + Coq theorems + extracted runner"),
+   ("coq-tfun", "coq/TFun", "Gallina model of tensor.Functor.__call__ on the numpy/Tensor model + Coq theorems + extracted runner"),
+   ("coq-quantum", "coq/Quantum", "abstract *-ring, exact ring Cyc32, bit-indexed matrices, gate tables and pure circuit evaluation + Coq theorems + extracted runner"),
+   ("coq-param", "coq/Param", "Gallina model of parametrised boxes (polynomial phases), subs / lambdify / free_symbols + Coq theorems + extracted runner"),
    ("coq-tensor", "coq/Tensor", "Gallina model of numpy primitives and discopy.tensor.Tensor over Gaussian integers + Coq theorems + extracted runner"),
  ]],
  "checks": checks,
